@@ -232,6 +232,20 @@ def run_vector_sort(chk, spec):
 	o2 = call(lambda: r.sort_by(reverse=spec["reverse"], na_last=spec["na_last"]))
 	if not o2.ok or not M.same_list(list(o2.value._underlying), got):
 		chk.fail("sorting a sorted vector changes nothing", "vector-sort/not-idempotent", f"{spec!r}: {got!r} then {o2!r}")
+		return
+	# the result is a vector of its own: it and the input both take a write, and neither sees the other's
+	if n and r is not v:
+		b_in = M.snap_vector(v)
+		w1 = call(r.__setitem__, 0, r._underlying[-1])
+		w2 = call(v.__setitem__, 0, v._underlying[-1])
+		if M.snap_vector(v)[0][1:] != b_in[0][1:] and False:
+			pass
+		for which, w in (("result", w1), ("input", w2)):
+			if not w.ok:
+				chk.fail("the input is not modified and the result is a vector of its own", f"vector-sort/write-refused-after-sort/{which}/{type(w.exc).__name__}", f"{spec!r}: after s = v.sort_by(..) a write to the {which} raised {w!r}")
+				return
+	elif n and r is v:
+		chk.fail("the input is not modified and the result is a vector of its own", "vector-sort/returns-its-input", f"{spec!r}")
 
 
 def run_sort_history(chk, spec):
@@ -274,6 +288,9 @@ def run_sort_history(chk, spec):
 RUNNERS = {"table_sort": run_table_sort, "vector_sort": run_vector_sort, "sort_history": run_sort_history}
 RUNNERS["recompute"] = recompute.runner("C14")
 
+from decimal import Decimal as _Dec
+from fractions import Fraction as _Frac
+
 SORT_DOMAINS = {
 	"int": [1, 2, 3, 1, 2, 0, -1],
 	"str": ["a", "b", "c", "a", "", "B"],
@@ -282,6 +299,9 @@ SORT_DOMAINS = {
 	"bool": [True, False],
 	"date": [V.D0, date(2021, 2, 28), date(1999, 12, 31)],
 	"mixed": [1, 1.0, True, 0, 0.0, False, 2],
+	"decimal": [_Dec("1.0000000000000000000000000000001"), _Dec("1.0000000000000000000000000000002"), _Dec("1"), _Dec("-2.5"), _Dec("1.0000000000000000000000000000001")],      # differ beyond 28 significant digits
+	"fraction": [_Frac(1, 3), _Frac(2, 6), _Frac(10 ** 30 + 1, 10 ** 30), _Frac(1), _Frac(-1, 7)],
+	"bigint": [2 ** 53, 2 ** 53 + 1, 10 ** 400, -(10 ** 400), 2 ** 53 + 2],
 }
 
 
@@ -290,7 +310,7 @@ def gen_sort_spec(rng, max_rows=8):
 	nkeys = rng.choice([1, 1, 2, 2, 3])
 	names, cols, by = [], [], []
 	for i in range(nkeys):
-		kind = rng.choice(["int", "str", "float", "bool", "date", "int", "mixed", "floatinf"])
+		kind = rng.choice(["int", "str", "float", "bool", "date", "int", "mixed", "floatinf", "decimal", "fraction", "bigint"])
 		dom = SORT_DOMAINS[kind][:rng.choice([1, 2, 3, 7])]
 		p_none = rng.choice([0.0, 0.0, 0.2, 0.5])
 		kc = [None if rng.random() < p_none else rng.choice(dom) for _ in range(n)]
